@@ -268,7 +268,11 @@ fn plant(b: &Base, class: &'static str, rng: &mut Rng) -> Option<Planted> {
             detail = format!("{tail:?}");
         }
         "pragma:unsupported-version" => {
-            let v = *rng.pick(&["3.0.0", "2.1.5", "2.2.0", "1.0.0", "2.1.10", "10.0.0", "0.9.9", "2.10.0", "1.9.9"]);
+            // (also components at and beyond the machine word: they must not wrap to something supported)
+            let v = *rng.pick(&[
+                "3.0.0", "2.1.5", "2.2.0", "1.0.0", "2.1.10", "10.0.0", "0.9.9", "2.10.0", "1.9.9",
+                "2.1.18446744073709551616", "2.18446744073709551616.0", "2.1.4294967296", "2.4294967297.0", "2.1.340282366920938463463374607431768211456", "18446744073709551618.0.0",
+            ]);
             project.files[target_fi].pragma = Some(v.to_string());
             rerender = true;
             detail = v.to_string();
